@@ -138,7 +138,7 @@ func layersDownToWrap(p *core.Prog, v ssa.Value) []ctxPath {
 					tn := core.QualNamedOf(a.X.Type())
 					st := derefStructT(a.X.Type())
 					if st != nil && tn != "" {
-						fname := st.Field(a.Field).Name()
+						fname := core.FieldName(st, a.Field)
 						n := 0
 						for _, fn := range p.LibFuncs("") {
 							core.Instrs(fn, func(in ssa.Instruction) {
@@ -150,7 +150,7 @@ func layersDownToWrap(p *core.Prog, v ssa.Value) []ctxPath {
 								if !ok || core.QualNamedOf(fa2.X.Type()) != tn {
 									return
 								}
-								if st2 := derefStructT(fa2.X.Type()); st2 != nil && st2.Field(fa2.Field).Name() == fname {
+								if st2 := derefStructT(fa2.X.Type()); st2 != nil && core.FieldName(st2, fa2.Field) == fname {
 									n++
 									next(s.Val)
 								}
